@@ -438,8 +438,48 @@ class Sweep(object):
             if sp:
                 self.negative(make, 'component', cname, sp.lower(), why, 2, sn, fname, cname, Component)
 
+    # -- positional paths of OTHER fields whose number merely begins with this field's number -------
+    def sibling_paths(self, make, sn, fname, fref, siblings, standalone):
+        """<SEG>_<i'>_<j>[_<k>] with str(i) a proper decimal prefix of str(i') (3 -> 30..39, 1 -> 10..19) is a
+        path of another field: on field i it designates nothing.  Every such sibling of the segment, and one
+        number beyond the table; the field holds its first component, so that a path wrongly applied to
+        it would read, overwrite or delete something."""
+        try:
+            prefix, idx = fname.rsplit('_', 1)
+            i = int(idx)
+        except ValueError:
+            return
+        nums = []
+        for n in siblings:
+            try:
+                nums.append(int(n.rsplit('_', 1)[1]))
+            except (ValueError, IndexError):
+                pass
+        others = [n for n in sorted(set(nums)) if n != i and str(n).startswith(str(i))]
+        beyond = i * 10 + 7
+        dt = fref[2] if len(fref) > 2 else None
+        if is_seq(fref) and fref[1]:
+            first = fref[1][0][0]
+            jc = next((j + 1 for j, r in enumerate(fref[1]) if is_seq(r[1])), 1)
+        elif dt == 'varies':
+            first, jc = 'VARIES_1', 1
+        elif dt is not None and self.lib.is_base_datatype(dt):
+            first, jc = dt, 1
+        else:
+            return
+        prep = lambda p: setattr(p, first, WRITE_VALUE)
+        held = lambda: (lambda p: (prep(p), p)[1])(make())     # the parent already holds its first component
+        for n in others + ([beyond] if beyond not in nums else []):
+            paths = [('%s_%d_1' % (prefix, n), 'component path of another field whose number begins with this one')]
+            if n != beyond:
+                paths.append(('%s_%d_%d_1' % (prefix, n, jc),
+                              'subcomponent path of another field whose number begins with this one'))
+            for sp, why in paths:
+                self.negative(held, 'field', fname, sp.lower(), why, 1, sn, fname, None, Field,
+                              extra={'sibling_prefix': True}, model=not standalone)
+
     # -- one field parent -----------------------------------------------------------------------------
-    def sweep_field(self, sn, fname, fref, standalone=False):
+    def sweep_field(self, sn, fname, fref, standalone=False, siblings=()):
         v = self.v
         lib = self.lib
         if standalone:
@@ -450,6 +490,7 @@ class Sweep(object):
         f = make()
         dt = fref[2] if len(fref) > 2 else None
         k1 = 1 if not standalone else None          # the model builds field parents from segment rows only
+        self.sibling_paths(make, sn, fname, fref, siblings, standalone)
         def mcase(*a):
             if k1 is not None:
                 self.model_case(*a)
@@ -558,10 +599,10 @@ class Sweep(object):
                                 'add_field')
                 for _, sp in case_variants(longs[i], self.rng):
                     self.write_delete(make, 'segment', sn, 'long', sp, ('s', sn, i), fname)
-            self.sweep_field(sn, fname, fref)
+            self.sweep_field(sn, fname, fref, siblings=names)
             std = lib.FIELDS.get(fname)
             if std is not None and std is not fref and std != fref and not synthetic:
-                self.sweep_field(sn, fname, std, standalone=True)
+                self.sweep_field(sn, fname, std, standalone=True, siblings=names)
         if dump(s) != before:
             self.fail('alias-read-changes-parent', 'reading children by their names changed the segment',
                       parent_kind='segment', parent=sn)
